@@ -448,7 +448,8 @@ def r16_10(run):
     holders = set()
     for u in units:
         for n in walk_unit(u):
-            if isinstance(n, ast.Assign) and isinstance(n.targets[0], ast.Subscript) and is_none(n.value) and (dotted(n.targets[0].value) or '').startswith('self.'):
+            if isinstance(n, ast.Assign) and isinstance(n.targets[0], ast.Subscript) and (dotted(n.targets[0].value) or '').startswith('self.') and \
+                    (is_none(n.value) or (isinstance(n.value, ast.IfExp) and (is_none(n.value.body) or is_none(n.value.orelse)))):
                 holders.add(dotted(n.targets[0].value))
     if not holders:
         raise AnchorVanished('None placeholder store into a TorState index')
